@@ -35,6 +35,12 @@ func specBackoff(T int, i int) int {
 //@   trusted
 //@ contract type Matcher
 //@   trusted
+//@   ensures result == specMatch(self, arg0)
+
+// specMatch(m, p): what matcher m answers for packet p (abstract: matchers are deterministic and read-only)
+//@ contract specMatch
+//@   trusted
+func specMatch(m Matcher, p *dhcpv6.Message) bool { return true }
 
 // (what a try writes is not retryFn's business - "modifies *" - except that it leaves the client's configuration alone)
 // One try, as retryFn sees it: exactly one transmission, at the start of the try, unless the try ends with another
@@ -123,6 +129,7 @@ func lemmaBackoffMono(T, i, j int) {
 //@   ensures[deadline] result == errDeadlineExceeded ==> now() == t0 + int(timeout) && sends() == s0 + 1 && sentAt() == t0
 //@   ensures[accepted] result == nil ==> now() <= t0 + int(timeout) && sends() == s0 + 1 && sentAt() == t0
 //@   ensures[bound] now() <= t0 + int(timeout) && now() >= t0 && sends() <= s0 + 1 && sends() >= s0
+//@   ensures[matched] result == nil ==> match == nil || specMatch(match, response)
 //@   ensures[one-send] sends() == s0 + 1 ==> sentAt() == t0 && len(lastSent()) >= 4 && lastSent()[0:1] == specByte(MT) && lastSent()[1:4] == X && lastSentTo() == net.Addr(dest)
 //@   ensures[in-use] old(has(c.pending, msg.TransactionID)) ==> result != nil && sends() == s0 && now() == t0
 //@   loop 0 invariant[timer] isTimer(deadline) && fireAt(deadline) == t0 + int(timeout)
@@ -141,3 +148,15 @@ func lemmaBackoffMono(T, i, j int) {
 //@   ensures[hidden] err != errDeadlineExceeded
 //@   ensures[bound] N >= 0 ==> now() <= t0 + specBackoff(T, N) - T && sends() <= s0 + N
 //@   ensures[result] (err == nil) ==> sends() >= s0 + 1
+
+// ---------- receive loop (property C10): what is handed to which transaction ----------
+// (the body of the goroutine receiveLoop starts) Per datagram read: at most one message is handed on; it is the decoding
+// of this very datagram (a DHCPv6 message, not a relay message), and the channel it goes to is the one registered for
+// its own transaction id.
+//@ contract (*Client).receiveLoop$1
+//@   requires c != nil && c.conn != nil && c.logger != nil && c.pending != nil
+//@   modifies c.pending
+//@   after `n, _, err := c.conn.ReadFrom(b)` let S0 = chsends()
+//@   after `c.pendingMu.Unlock()` assert[at-most-one] chsends() == S0 || chsends() == S0 + 1
+//@   after `c.pendingMu.Unlock()` assert[decoded] chsends() == S0 + 1 ==> lastChanValue() == msg && msg != nil && len(b[:n]) >= 4 && string(msg.TransactionID[:]) == string(b[:n])[1:4]
+//@   after `c.pendingMu.Unlock()` assert[own-channel] chsends() == S0 + 1 ==> has(c.pending, msg.TransactionID) && lastChan() == c.pending[msg.TransactionID].ch
